@@ -146,6 +146,11 @@ def generate(tier, seed):
     n = 2400 if tier == "quick" else 40000
     r1 = common.run_tlc_many("Ssa", ssa_cfg("ssa_sim_a", 2, 3, 2, 6), 8, n, 90, seed, allow_violation=True)
     r2 = common.run_tlc_many("Ssa", ssa_cfg("ssa_sim_b", 3, 3, 3, 5), 8, n // 2, 90, seed + 17, allow_violation=True)
+    # networks with 4..6 reactions (an error that needs many reactions, e.g. an unrolled summation, shows only here)
+    r3 = common.run_tlc_many("Ssa", ssa_cfg("ssa_sim_c", 3, 6, 2, 5), 8, n // 2, 90, seed + 23, allow_violation=True)
+    r2.records += r3.records
+    r2.generated += r3.generated
+    r2.violated = r2.violated or r3.violated
     return r1, r2
 
 
